@@ -120,7 +120,9 @@ func c01Alphabet(thorough bool) []string {
 	if thorough {
 		return append(append([]string(nil), c01m.Alphabet...), "S2F", "D2z", "AV", "CLX")
 	}
-	return c01m.Alphabet
+	// a DELETE that affects nothing belongs to the quick tier too: a statement that changes no record must leave
+	// an oddly spelled file byte-identical
+	return append(append([]string(nil), c01m.Alphabet...), "D2z")
 }
 
 func inBase(ops []string) bool {
